@@ -261,7 +261,9 @@ impl Honest {
             cid_lifetime_ms,
             server_migration: true,
             max_udp_payload: [1472, 1472],
-            retry_lifetime_ms: 15_000,
+            // (a Retry token that expires while losses keep its Initial from arriving ends the
+            // attempt with INVALID_TOKEN by design; token lifetimes are C14's business)
+            retry_lifetime_ms: 10_000_000,
         }
     }
 
